@@ -230,7 +230,8 @@ pub fn run(ctx: &mut Ctx) {
     // (a) exhaustive
     let maxlen = ctx.n(5, 7);
     let mut total: u64 = 0;
-    for len in 0..=maxlen {
+    let lens = if ctx.is_fuzz() { 0..=0 } else { 0..=maxlen };
+    for len in lens {
         let n = 8u64.pow(len as u32);
         for code in 0..n {
             case += 1;
@@ -251,6 +252,18 @@ pub fn run(ctx: &mut Ctx) {
         }
     }
     ctx.rec.note("exhaustive_space", &total.to_string());
+
+    // (a') fuzz mode only: the decision tape itself, read as text (lossy UTF-8), tokenised the way the
+    // documentation says (whitespace separated) and compared structurally when it is balanced
+    if ctx.is_fuzz() {
+        if let Some(raw) = crate::rng::tape_bytes() {
+            let text = String::from_utf8_lossy(&raw).to_string();
+            let toks: Vec<&str> = text.split_whitespace().collect();
+            judge(ctx, &text, Some(&toks), &empty, &is, &names, "tape-as-text");
+            ctx.rec.count("tape_texts", 1);
+        }
+        case = 0;
+    }
 
     // (b) hostile random strings
     let nb = ctx.n(60000, 2000000);
